@@ -14,6 +14,7 @@ in-membership rows, then out-membership rows, on zeroed work matrices) and C03 p
 proved about the statement sequence of `Solver::run` as it stands in the source.
 -/
 import MTProofs.CodeRefineRun
+import MT.Generated.UtilsCode
 
 namespace MTProps.CodeRun
 open MT MT.Gen MT.CodeRefine
@@ -61,4 +62,23 @@ theorem code_run_zero (evalL : Nat → Nat → State α → α) (c : RunLoc α) 
     runCode directed assort ik K N nv maxIt nConv evalL userW d 0 c = c := rfl
 
 end
+
+/-! ### how the generator is handed over
+
+`runCode` threads one stream position through all realizations of a call (`Solver::run` takes the generator by
+reference), and `factorizeWith` starts every call at position 0 of the stream its seed determines (the entry point
+takes the generator BY VALUE: the call works on a copy, the caller's object is left as it was, so two calls handed
+the same object see the same stream — the prefix statement of C04 and the repeatability of C07 across calls that
+share a generator).  Both facts are read off the parameter lists, pinned here as they stand in the source. -/
+
+/-- `multitensor_factorization(…, random_t random_generator = random_t{})`: the generator is a by-value parameter -/
+theorem entry_point_parameters_documented :
+    Gen.mainParametersText = "conststd::vector<vertex_t>&edges_start,conststd::vector<vertex_t>&edges_end,conststd::vector<weight_t>&edges_weight,constsize_t&nof_realizations,constsize_t&max_nof_iterations,constsize_t&nof_convergences,std::vector<vertex_t>&labels,tensor::Matrix<double>&u,tensor::Matrix<double>&v,std::vector<double>&affinity,random_trandom_generator=random_t{}" := rfl
+
+/-- `Solver::run(…, random_t &random_generator, affinity_init_t w_init_obj = affinity_init_t{})`: one stream for the
+realizations of a call; the affinity initialiser object (with its cached copy of the caller's tensor) is a by-value
+parameter, fresh in every call -/
+theorem run_parameters_documented :
+    Gen.runParametersText = "conststd::vector<size_t>&u_list,conststd::vector<size_t>&v_list,constnetwork_t&A,tensor::Matrix<double>&u,tensor::Matrix<double>&v,affinity_t&w,random_t&random_generator,affinity_init_tw_init_obj=affinity_init_t{}" := rfl
+
 end MTProps.CodeRun
